@@ -1088,6 +1088,10 @@ class RankInvariance(Family):
         for _ in range(260 if tier == "quick" else 2500):
             n = rng.choice([2, 3, 3, 4, 4, 5, 5, 6, 6, 7, 8, 9, 10, 12])
             yield {"tree": random_topology(rng, range(n), p_poly=rng.choice([0, 0.3, 0.6])), "seed": rng.randrange(1 << 30)}
+        # structured: a node whose children fall into >= 3 leaf-count groups that each admit more
+        # than one shape (sizes >= 3), so that every weight of the mixed-radix shape rank matters
+        for _ in range(40 if tier == "quick" else 300):
+            yield {"tree": grouped_topology(rng), "seed": rng.randrange(1 << 30), "grouped": True}
         # malformed stream: unary nodes and several roots are refused
         for _ in range(30):
             n = rng.randrange(2, 6)
@@ -1168,7 +1172,8 @@ class RankInvariance(Family):
 
     def describe(self, case, obs):
         t = case["tree"]
-        return {"n": len(leaves_of(t)), "polytomy": _has_poly(t), "bad": str(case.get("bad"))}
+        return {"n": len(leaves_of(t)), "polytomy": _has_poly(t), "bad": str(case.get("bad")),
+                "grouped": bool(case.get("grouped"))}
 
     def shrink(self, case):
         t = case["tree"]
@@ -1180,6 +1185,28 @@ class RankInvariance(Family):
                     m = {x: k for k, x in enumerate(ls)}
                     rel = lambda x: m[x] if isinstance(x, int) else [rel(c) for c in x]
                     yield dict(case, tree=canon(rel(keep))[0])
+
+
+def grouped_topology(rng):
+    """12..16 leaves; some node has children of >= 3 different sizes >= 3 (e.g. 3,4,5), with
+    random (mostly non-star) subtrees; optionally repeated sizes, extra single leaves, and the
+    whole thing hung below another node."""
+    sizes = list(rng.choice([[3, 4, 5], [3, 4, 5], [3, 4, 6], [3, 5, 6], [3, 4, 7], [4, 5, 6],
+                             [3, 4, 5, 3], [3, 4, 5, 4], [3, 3, 4, 5], [3, 4, 5, 1], [3, 4, 5, 1, 1],
+                             [3, 4, 5, 2], [3, 4, 4, 5]]))
+    extra = rng.choice([0, 0, 1, 2]) if sum(sizes) + 2 <= 16 else 0
+    n = sum(sizes) + extra
+    labels = list(range(n))
+    rng.shuffle(labels)
+    kids, pos = [], 0
+    for k in sizes:
+        kids.append(random_topology(rng, labels[pos:pos + k], p_poly=rng.choice([0, 0.2, 0.5])))
+        pos += k
+    t = kids
+    if extra:       # hang the grouped node below a new root next to `extra` more leaves / a cherry
+        rest = labels[pos:]
+        t = [t] + ([rest] if (extra == 2 and rng.random() < 0.5) else rest)
+    return canon(t)[0]
 
 
 def _has_poly(t):
@@ -1259,10 +1286,12 @@ def _counter_obs(tc):
     return out
 
 
-def moves_desc(rng):
+def moves_desc(rng, vanish_p=0.0):
     """A gen_ts-style description: a random topology (polytomies, some unary nodes) on 3..9
     sample leaves over [0,L), changed at 0..3 breakpoints by moving a subtree below another,
-    older node (the vacated parent may become unary or childless)."""
+    older node (the vacated parent may become unary or childless).  With probability vanish_p
+    an internal node additionally disappears from the tree completely (no parent, no children)
+    for one or more trees and returns later as a childless dead leaf (or as a parent)."""
     n = rng.randrange(3, 10)
     t = random_topology(rng, range(n), p_poly=rng.choice([0, 0.3, 0.6]))
     parent, time = {}, {}
@@ -1292,10 +1321,44 @@ def moves_desc(rng):
     L = rng.randrange(1, 5)
     forests = []
     cur = dict(parent)
+    # optional schedule: an internal node with sample descendants loses its parent edge and all
+    # its child edges at one breakpoint (isolated for one or more trees) and later returns
+    # either as a childless dead leaf or with (new) children
+    vanish = None
+    if vanish_p and rng.random() < vanish_p:
+        L = rng.randrange(3, 6)
+        cands = [u for u in range(n, m) if u != root]
+        if cands:
+            v = rng.choice(cands)
+            x1 = rng.randrange(1, L - 1)
+            x2 = rng.randrange(x1 + 1, L)
+            vanish = (v, x1, x2, rng.choice(["dead", "dead", "dead", "parent"]))
     for x in range(L):
-        if x > 0:
+        if vanish and x == vanish[1]:
+            v = vanish[0]
+            cur = dict(cur)
+            gp = cur[v]
+            for c in range(m):
+                if cur[c] == v:
+                    cur[c] = gp if (gp != -1 and rng.random() < 0.8) else rng.choice(
+                        [q for q in range(n, m) if q != v and time[q] > time[c] and (cur[q] != -1 or q == root)] or [gp])
+            cur[v] = -1
+        elif vanish and x == vanish[2]:
+            v = vanish[0]
+            cur = dict(cur)
+            older = [q for q in range(n, m) if q != v and time[q] > time[v] and (cur[q] != -1 or q == root)]
+            if older:
+                cur[v] = rng.choice(older)
+                if vanish[3] == "parent":
+                    younger = [c for c in range(m) if c != v and time[c] < time[v] and cur[c] != -1]
+                    if younger:
+                        cur[rng.choice(younger)] = v
+        elif x > 0 and not (vanish and vanish[1] < x < vanish[2] and rng.random() < 0.6):
             for _ in range(rng.randrange(1, 3)):
-                v = rng.choice([u for u in range(m) if cur[u] != -1])
+                movable = [u for u in range(m) if cur[u] != -1]
+                if not movable:
+                    continue
+                v = rng.choice(movable)
                 below = set()
                 stack = [v]
                 while stack:
@@ -1303,7 +1366,7 @@ def moves_desc(rng):
                     below.add(w)
                     stack += [c for c in range(m) if cur[c] == w]
                 cand = [q for q in range(m) if q not in below and time[q] > time[v] and q >= n
-                        and (cur[q] != -1 or q == root)]
+                        and (cur[q] != -1 or q == root) and not (vanish and q == vanish[0])]
                 if cand:
                     cur = dict(cur)
                     cur[v] = rng.choice(cand)
@@ -1341,8 +1404,8 @@ class CountTopologies(Family):
         made = 0
         want = 220 if tier == "quick" else 2500
         # (1) single-rooted trees that change by subtree moves along the sequence
-        for _ in range(want):
-            desc = moves_desc(rng)
+        for i in range(want):
+            desc = moves_desc(rng, vanish_p=0.5 if i % 2 else 0.0)
             samples = [i for i, nd in enumerate(desc["nodes"]) if nd[0] & 1]
             rng.shuffle(samples)
             nsets = rng.randrange(1, min(4, len(samples)) + 1)
